@@ -44,6 +44,7 @@ func jlsScanCase(c *hx.Ctx, im jlsImage, mode, near int) {
 		res = "ok " + hx.Hex(scan)
 	}
 	c.Case("jls-scan-enc"+jlsArgs(append(append([]int{}, hdr...), im.S...)), res)
+	c.Case("jls-scanL-enc"+jlsArgs(append(append([]int{}, hdr...), im.S...)), res) // same answer expected from the list model
 	c.Count(fmt.Sprintf("kernel:jls-scan-enc mode=%d comps=%d", mode, im.C))
 	if oc != "ok" {
 		return
@@ -59,6 +60,7 @@ func jlsScanCase(c *hx.Ctx, im jlsImage, mode, near int) {
 		res = jlsOK(d.S...)
 	}
 	c.Case("jls-scan-dec "+hx.Hex(scan)+jlsArgs(hdr), res)
+	c.Case("jls-scanL-dec "+hx.Hex(scan)+jlsArgs(hdr), res)
 	c.Count(fmt.Sprintf("kernel:jls-scan-dec mode=%d comps=%d", mode, im.C))
 }
 
